@@ -9,6 +9,7 @@ import (
 	"strings"
 
 	"github.com/tobgu/qframe/config/groupby"
+	"github.com/tobgu/qframe/internal/index"
 	"github.com/tobgu/qframe/internal/vx"
 )
 
@@ -253,7 +254,20 @@ func VX_C05_distinct() {
 		r = s.f.Distinct(s.cfg()...)
 	}
 	vx.Check(r.Err == nil, "Distinct: no error")
-	out := r.index
+	out := append(index.Int{}, r.index...)
+	// the source frame still has its rows, a second Distinct on it gives the same rows and
+	// leaves the first result alone
+	vx.Check(len(s.f.index) == s.n, "source frame keeps its length")
+	for row := 0; row < s.n && row < len(s.f.index); row++ {
+		vx.Check(s.f.index[row] == s.ix[row], "source frame keeps its rows after Distinct")
+	}
+	if vx.ParamStr("cols") != "all" {
+		r2 := s.f.Distinct(s.cfg()...)
+		vx.Check(len(r2.index) == len(out) && len(r.index) == len(out), "a second Distinct keeps as many rows")
+		for j := range out {
+			vx.Check(j < len(r.index) && r.index[j] == out[j], "the first result is unchanged by a second call")
+		}
+	}
 	kept := make([]bool, s.n)
 	for _, id := range out {
 		p := s.pos(id)
